@@ -1765,8 +1765,10 @@ def _read_buffers(
 
     # make sure we have a unique base frame name
     base_frame = "world"
-    if base_frame in names:
-        base_frame = str(int(np.random.random() * 1e10))
+    # `names` is keyed by node index so look the name up in `name_index`:
+    # a node of that name which is the child of another node can't be the base
+    if any(name_index.get(base_frame) in n.get("children", ()) for n in nodes):
+        base_frame = unique_name(base_frame, name_index)
     names[base_frame] = base_frame
 
     # visited, kwargs for scene.graph.update
